@@ -237,7 +237,11 @@ package lnwallet
 //@   site call append nth 5: assert !lc.channelState.LastWasRevoke && arg(0) == updates && arg(1) == commitUpdates
 //@
 //@ func (lc *LightningChannel) restoreStateLogs
-//@   props C02 C03
+//@   props C01 C02 C03
+//@   // the local log is rebuilt in log-index order: the updates on the peer's current commitment that the peer has not signed
+//@   // back yet are older than those of our dangling commitment, so they are restored first (finding F16: the last fee update
+//@   // in list order wins in evaluateHTLCView)
+//@   site call restorePendingLocalUpdates as older-local-updates-restored-first: assert called(restorePeerLocalUpdates)
 //@   bounds-safe
 //@   loop * havoc
 //@   loop 0 step incomingRemoteAddHeights[r.HtlcIndex] == pendingRemoteCommit.height
